@@ -17,8 +17,9 @@
      node signatures (nsig)
        "honest" | "silent" | "otherkey" peer (signed with PEER's ENR key) | "otherhash" | "claim" peer (claims PEER's
        index) | "marker" (0xdeadbeef)
-   Plans: phases are honest or "forge" up to the first other fault, honest after it (nothing runs after it anyway,
-   except after "marker").
+   Plans: at most one fault other than "forge", honest phases after it (nothing runs after it anyway, except after
+   "marker"); forged extras (in at most MaxForge phases) either stand alone (Combine = FALSE) or also precede a later
+   fault (Combine = TRUE).
 
    Reductions that lose no reachable verdict: the honest peers start in peer order and their messages are delivered in
    (from, to) order -- they fill different slots of different stores, so they commute; everything the faulty peer
